@@ -29,11 +29,13 @@ PROPS["C06"] = {
         "barter_data::exchange::binance::spot::l2::BinanceSpotOrderBookL2Sequencer::{new, validate_sequence, is_first_update, validate_first_update, validate_next_update}",
         "barter_data::exchange::binance::futures::l2::BinanceFuturesUsdOrderBookL2Sequencer::{new, validate_sequence, is_first_update, validate_first_update, validate_next_update}",
         "barter_data::error::DataError::is_terminal",
+        "barter_data::books::OrderBook::update(Snapshot) - the two C05 book-snapshot harnesses: re-initialisation after a terminal sequence error REPLACES the "
+        "local book (levels, sequence), whatever the sequence numbers",
     ],
     "bounds": {
         "quick": "one step from an ARBITRARY sequencer state with full 64-bit symbolic U/u/pu (ids < u64::MAX); k-step harnesses: k = 4 arbitrary "
                  "messages after new(snapshot id), full 64-bit ids; level lists empty; unwind 26",
-        "thorough": "quick + k = 6 chains; sequencer -> OrderBook::update against a reference exchange book (see harness list)",
+        "thorough": "quick + k = 6 chain-safety harnesses for both rule sets + the C05 book-level Update harness",
     },
     "outside": [
         "the `+ 1` overflow of the spot sequencer at last_update_id == u64::MAX (panic in dev, wrap in release)",
@@ -42,8 +44,8 @@ PROPS["C06"] = {
     ],
     "assumptions": ["venue contract: U <= u within one update (used only by the gap-free liveness harnesses)"],
     "tiers": {
-        "quick": {"filters": ["c06_q_", "c06_twin_"], "jobs": 8, "harness_timeout_s": 300, "total_timeout_s": 900},
-        "thorough": {"filters": ["c06_"], "jobs": 8, "harness_timeout_s": 1800, "total_timeout_s": 3600},
+        "quick": {"filters": ["c06_q_", "c06_twin_", "c05_q_book_snapshot"], "jobs": 9, "harness_timeout_s": 700, "total_timeout_s": 1500},
+        "thorough": {"filters": ["c06_", "c05_q_book_"], "jobs": 10, "harness_timeout_s": 1800, "total_timeout_s": 3600},
     },
 }
 
@@ -59,7 +61,8 @@ PROPS["C02"] = {
         "quick": "one inductive step from an ARBITRARY open position (or none): quantities/prices in 1..3, fees 0..3, realised/unrealised PnL in -3..3 "
                  "(2-bit integers), integer entry price; 10 cells = pre-side x fill-side x {reduce, exact close, flip}; instantiation "
                  "Position<QuoteAsset, InstrumentIndex>; unwind 26",
-        "thorough": "the same cells with 3-bit integers (1..7) and a rational average entry price n/d, d <= 2",
+        "thorough": "the same cells with 3-bit integers (1..7) and a rational average entry price n/d, d <= 2; plus a direct two-fill history from flat "
+                    "(2-bit values, both sides symbolic) checking the telescoped identity end to end",
     },
     "outside": ["28-digit rounding of rust_decimal (the property says 'up to decimal rounding'); magnitudes beyond the stated bit-widths",
                 "InstrumentState::update_from_trade wiring (covered under C15 / engine-level harnesses)"],
@@ -119,7 +122,7 @@ PROPS["C18"] = {
 }
 
 PROPS["C16"] = {
-    "hook": False,
+    "hook": True,
     "functions": [
         "barter::statistic::summary::instrument::TearSheetGenerator::{update_from_position, generate::<TimeDelta>}",
         "barter::statistic::summary::pnl::PnLReturns::update",
@@ -127,15 +130,18 @@ PROPS["C16"] = {
         "barter::statistic::metric::win_rate::WinRate::calculate",
         "barter::statistic::metric::profit_factor::ProfitFactor::calculate",
         "barter::statistic::summary::dataset::DataSetSummary::update (count / sum)",
+        "barter::statistic::summary::TradingSummaryGenerator::update_from_position::<QuoteAsset, InstrumentIndex> + InstrumentTearSheetManager<InstrumentIndex> "
+        "(2-instrument summary: the position's instrument gains exactly this position, the other is untouched, clock = latest time)",
     ],
     "bounds": {
         "quick": "(a) update: ARBITRARY invariant state with <= 2 wins and <= 2 losses, win/loss return sums n/d (n<4, d<=2), raw PnL -3..3; closed position "
                  "with realised PnL -3..3, entry price 1..3, max quantity 1..3. (b) generate on an arbitrary invariant state of the same shape; interval "
-                 "TimeDelta::seconds(2), risk-free return 0; unwind 8",
+                 "TimeDelta::seconds(2), risk-free return 0; (c) trading summary with 2 instruments (<= 1 win / loss each), position for a concrete "
+                 "instrument with exit time before / equal / after the summary clock; unwind 8-12",
         "thorough": "quick + update with <= 4 wins/losses (2-bit values) and generate with <= 4 wins/losses and 3-bit values",
     },
     "outside": ["Sharpe / Sortino / Calmar / rate-of-return values (sqrt and time scaling are stubbed; not part of the property)",
-                "TradingSummaryGenerator::{init, generate} per-instrument / per-asset maps (hash containers)",
+                "TradingSummaryGenerator::{init, generate, update_from_balance} (only update_from_position is encoded)",
                 "negative zero returns (rounding-level)"],
     "assumptions": ["model: checked_mul/checked_div return None when an operand is outside the model range (Decimal::MAX markers of the ratio metrics)",
                     "invariant J: pnl_raw = P, total.count = W+L, total.sum = SW+SL, losses.count = L, losses.sum = SL (SL < 0 when L > 0)"],
